@@ -31,7 +31,8 @@ RunsN(h, n) ==
         Run("topa", FALSE, -1, -1, -1, 1, TRUE, FALSE), Run("topa", FALSE, s, e, w, 1, FALSE, TRUE),
         Run("topa", FALSE, s, e, -1, 1, TRUE, FALSE),
         Run("topa", FALSE, 1, n, -1, 1, FALSE, FALSE), Run("topa", FALSE, 1, -1, -1, 2, FALSE, FALSE), Run("topa", FALSE, -1, n, -1, 1, FALSE, FALSE),
-        Run("samvar", FALSE, -1, -1, -1, 2, FALSE, FALSE), Run("topavar", FALSE, -1, -1, -1, 1, FALSE, FALSE) >>
+        Run("samvar", FALSE, -1, -1, -1, 2, FALSE, FALSE), Run("topavar", FALSE, -1, -1, -1, 1, FALSE, FALSE),
+        Run("tomavar", FALSE, -1, -1, -1, 2, FALSE, FALSE) >>
 Runs(h) == RunsN(h, L)
 Rec(qn, flag, p, c, rot) == [q |-> qn, flag |-> flag, pos |-> p, cig |-> c, seq |-> Rot(rot, QryLen(c))]
 CigStr(c) == LET RECURSIVE S(_) S(k) == IF k = 0 THEN "" ELSE S(k - 1) \o ToString(c[k][2]) \o c[k][1] IN S(Len(c))
